@@ -190,6 +190,9 @@ def c07(r):
                       'loop variables keep their last value after a for loop (observed, manual silent)',
                       'sanitizer reports are observed on the replayed scenarios only']
     depth = 2 if r.quick else 3
+    r.mc('BlocControl', 'MC_C07.cfg', 'implementation-shaped control machinery (control stack, exec level, stop conditions, exception in flight; one operator per C++ function) '
+         'refines the ideal layer and leaves no residue, as one unit and statement by statement, for every nesting of depth <= %d of 8 wrappers x 12 leaves' % depth,
+         env={'MC_DEPTH': str(depth)}, timeout=3000)
     scs = r.gen('Gen_C07', 'Gen_C07.cfg', env={'GEN_DEPTH': str(depth), 'GEN_SAMPLE': '1'}, timeout=3000)
     r.exhaustive = True
     r.extra['bounds'] = 'nesting depth <= %d over 13 wrappers (8 handler sets, for, forall, while, if, call) x 10 leaves; batch and stepwise; probe + dump' % depth
@@ -290,10 +293,15 @@ def c16(r):
                       'every scenario starts with an empty registry (PluginManager::destroy between scenarios)']
     r.mc('BlocPlugin', 'MC_C16.cfg' if not r.quick else 'MC_C16_quick.cfg',
          'all histories of unban/clear/clone/import/import-by-path/include/ctor(top,function)/typed declaration: no ungranted object in an untrusted context')
+    r.mc('BlocPlugin', 'MC_C16_perm.cfg', 'permission sub-alphabet (grant, revoke all, constructors with and without arguments in the untrusted context), all histories of length <= 7')
     scs = r.gen('Gen_C16', 'Gen_C16.cfg' if r.quick else 'Gen_C16_thorough.cfg', workers=8, timeout=3000)
     r.exhaustive = True
-    r.extra['bounds'] = 'all histories of length %d over 2 modules, 3 contexts (trusted, untrusted, clone of either)' % (3 if r.quick else 4)
+    r.extra['bounds'] = ('all histories of length %d over 2 modules, 3 contexts (trusted, untrusted, clone of either); '
+                         'all histories of length %d over the permission sub-alphabet (grant m, revoke all, constructor of m with / without arguments in the untrusted context)'
+                         % ((3, 4) if r.quick else (4, 6)))
     r.conform(scs, trace_module='Trace_C16', trace_cfg='Trace_C16.cfg', workers=16)
+    scs2 = r.gen('Gen_C16', 'Gen_C16_perm.cfg' if r.quick else 'Gen_C16_perm_thorough.cfg', workers=8, timeout=3000)
+    r.conform(scs2, trace_module='Trace_C16', trace_cfg='Trace_C16.cfg', workers=16)
 
 
 @prop('C15')
